@@ -97,6 +97,13 @@ mut("eq_random_strict_on_any_error", "scalar.go", "\t\t_, err := io.ReadFull(ran
     "own read loop that panics on any error, even one delivered with the completing bytes")
 mut("eq_random_retries_transient_errors", "scalar.go", "\t\t_, err := io.ReadFull(rand.Reader, buf[:])\n\t\tif err != nil {\n\t\t\tpanic(err)\n\t\t}", "\t\t_, err := io.ReadFull(rand.Reader, buf[:])\n\t\tfor try := 0; err != nil && try < 3; try++ {\n\t\t\t_, err = io.ReadFull(rand.Reader, buf[:])\n\t\t}\n\t\tif err != nil {\n\t\t\tpanic(err)\n\t\t}", [],
     "a failed block read is retried (whole block, fresh bytes) up to three times before panicking")
+mut("eq_h2g_parallel_correct", "group.go", "\tq0 := SSWU(u0)\n\tq1 := SSWU(u1)\n", "\tvar (\n\t\twg     sync.WaitGroup\n\t\tq0, q1 *Element\n\t)\n\n\twg.Add(2)\n\n\tgo func() {\n\t\tdefer wg.Done()\n\n\t\tq0 = SSWU(u0)\n\t}()\n\tgo func() {\n\t\tdefer wg.Done()\n\n\t\tq1 = SSWU(u1)\n\t}()\n\twg.Wait()\n", [],
+    "HashToGroup maps its two field elements in two goroutines, correctly joined and sharing nothing: every configuration then runs under the scheduler and must stay silent",
+    extra=[("group.go", "import (\n", "import (\n\t\"sync\"\n\n", 1)])
+mut("c16only_random_prefetch_two_blocks", "scalar.go", "\t\t_, err := io.ReadFull(rand.Reader, buf[:])\n\t\tif err != nil {\n\t\t\tpanic(err)\n\t\t}\n", "\t\tnextEntropyBlock(&buf)\n", ["C16"],
+    "Random draws 64 bytes at a time into a mutex-protected package buffer and hands out 32-byte blocks in order, dropping everything on failure: in spec for C18 (each delivered block used once, in order), but it is mutable package state (C16)",
+    extra=[("scalar.go", "// Random sets the current Scalar to a new random Scalar and returns it.", "var entropyBuf struct {\n\tsync.Mutex\n\tbuf  [64]byte\n\thave int\n\toff  int\n}\n\nfunc nextEntropyBlock(out *[32]byte) {\n\tentropyBuf.Lock()\n\tdefer entropyBuf.Unlock()\n\n\tif entropyBuf.have-entropyBuf.off < 32 {\n\t\tentropyBuf.have, entropyBuf.off = 0, 0\n\n\t\tif _, err := io.ReadFull(rand.Reader, entropyBuf.buf[:]); err != nil {\n\t\t\tpanic(err)\n\t\t}\n\n\t\tentropyBuf.have = 64\n\t}\n\n\tcopy(out[:], entropyBuf.buf[entropyBuf.off:entropyBuf.off+32])\n\tentropyBuf.off += 32\n}\n\n// Random sets the current Scalar to a new random Scalar and returns it.", 1),
+           ("scalar.go", "\t\"math/bits\"\n", "\t\"math/bits\"\n\t\"sync\"\n", 1)])
 
 
 def sh(cmd, **kw):
